@@ -144,8 +144,7 @@ impl IntoType for Constructor {
 
 impl Dependencies for Constructor {
     fn dependencies(&self) -> Vec<crate::ast::Dependency> {
-        let x = self.body.net_dependencies();
-        x
+        crate::ast::crossing_function_boundary(self.body.net_dependencies())
     }
 
     fn supplies(&self) -> Vec<crate::ast::Dependency> {
